@@ -42,15 +42,21 @@ def doc_specs(tier, sd):
     return specs
 
 
+LINE_FIELDS = ('kind', 'w', 'n', 'wl', 'cl', 'fl', 'op', 'addr', 'rs', 'warn', 'tab', 'cols', 'lf')
+
+
 def slim(c):
+    """what TLC gets: expected items as records, output lines as tuples (keeps the JSON small)"""
     d = {k: c[k] for k in TLC_FIELDS}
     d['exp'] = [{k: it[k] for k in ITEM_FIELDS} for it in c['exp']]
+    d['out'] = [[l[k] for k in LINE_FIELDS] for l in c['out']]
     return d
 
 
 def vacuity(cases, fails):
     """every class the property quantifies over must actually have been exercised"""
     n = collections.Counter()
+    widths = collections.defaultdict(set)
     for c in cases:
         t = c['tool']
         for it in c['exp']:
@@ -64,11 +70,24 @@ def vacuity(cases, fails):
                     n[t + ':table'] += 1
                 if any(s[2] for s in it['st']):
                     n[t + ':nowrap'] += 1
+        if t == 'skool':
+            # the closing brace sna2skool adds: glued to a last line that then ends exactly at the width, or
+            # pushed to a row of its own because the last line is full
+            o = c['out']
+            for a, b in zip(o, o[1:] + [None]):
+                if a['kind'] == 'i' and a['w'] and a['w'][-1] % 10 and a['w'][-1] > 9 and a['n'] == c['W']:
+                    n['skool:closing-brace-ends-at-W'] += 1
+                    widths['glued'].add(c['W'])
+                if (b and a['kind'] == 'i' and b['kind'] == 'i' and b['op'] == 0 and b['w'] and all(0 < x < 10 for x in b['w'])
+                        and a['n'] in (c['W'], c['W'] - 1)):
+                    n['skool:closing-brace-pushed-from-full-line'] += 1
+                    widths['pushed'].add(c['W'])
         for l in c['out']:
             if c['W'] and l['n'] > c['W']:
                 n[t + ':overlong-line'] += 1
             if c['W'] and l['n'] == c['W'] and l['kind'] in 'ci':
                 n[t + ':exactly-W'] += 1
+                widths[t + l['kind']].add(c['W'])
             if l['warn']:
                 n[t + ':warned'] += 1
             if l['tab']:
@@ -78,9 +97,15 @@ def vacuity(cases, fails):
     need += ['asm:tight-asm-%d' % d for d in range(4)] + ['skool:tight-skool-%d' % d for d in range(4)]
     need += ['%s:brace:%s' % (t, v) for t in ('asm', 'html', 'skool')
              for v in ('plain', 'open-first', 'close-last', 'both', 'nested', 'more-open', 'more-close')]
+    need += ['skool:brace:close-then-open', 'skool:closing-brace-ends-at-W', 'skool:closing-brace-pushed-from-full-line']
     need += ['asm:table', 'html:table', 'skool:nowrap', 'asm:overlong-line', 'skool:overlong-line', 'asm:exactly-W',
              'skool:exactly-W', 'asm:warned', 'asm:table-line']
     missing = [k for k in need if not n[k]]
+    # the off-by-one classes must be present at (nearly) every width 40..200, not just somewhere
+    for cls in ('glued', 'pushed', 'asmi', 'asmc', 'skooli', 'skoolc'):
+        n['widths-covered:' + cls] = len(widths[cls])
+        if len(widths[cls]) < 150:
+            missing.append('%s at only %d of 161 widths' % (cls, len(widths[cls])))
     if missing:
         raise MachineryError('C18 generator did not exercise: %s' % ', '.join(missing))
     return n
@@ -108,8 +133,22 @@ def run(tier):
     with mp.get_context('fork').Pool(nproc) as pool:
         parts = pool.map(wrapdrv.worker, chunks)
     cases = [c for p in parts for c in p]
-    log('C18: %d documents, %d cases' % (len(specs), len(cases)))
+    log('C18: %d documents, %d cases (%.1fs)' % (len(specs), len(cases), rep.timer.s()))
+    drift = 0
+    bare_lf = []
+    allfails = {}
+    for b in range(0, len(cases), 20000):
+        part = cases[b:b + 20000]
+        rj, fails = tlc.judge('doc', 'WrapCases', 'WrapCases.cfg', [slim(c) for c in part],
+                              casefile=os.path.join(wd, 'cases.json'), timeout=3000, workers=8)
+        rep.add_tlc(rj, 'WrapCases', traces=len(part))
+        log('C18: judged %d cases (%.1fs)' % (len(part), rep.timer.s()))
+        drift += sum(1 for tag, _ in rj.notes if tag == 'DRIFT')
+        bare_lf += [b + int(v.split(',')[0]) - 1 for tag, v in rj.notes if tag == 'TERMINATOR']
+        for i, clause in fails:
+            allfails[b + i] = clause
     th.join()
+    log('C18: model check done (%.1fs)' % rep.timer.s())
     if 'e' in mc:
         raise mc['e']
     r = mc['r']
@@ -118,16 +157,6 @@ def run(tier):
     never = [a for a, (d, t) in r.coverage.items() if t == 0]
     if never:
         raise MachineryError('Wrap_mc: actions never taken: %s' % never)
-    drift = 0
-    allfails = {}
-    for b in range(0, len(cases), 20000):
-        part = cases[b:b + 20000]
-        rj, fails = tlc.judge('doc', 'WrapCases', 'WrapCases.cfg', [slim(c) for c in part],
-                              casefile=os.path.join(wd, 'cases.json'), timeout=3000)
-        rep.add_tlc(rj, 'WrapCases', traces=len(part))
-        drift += sum(1 for tag, _ in rj.notes if tag == 'DRIFT')
-        for i, clause in fails:
-            allfails[b + i] = clause
     gen_bad = [(i, cl) for i, cl in allfails.items() if cases[i]['tool'] == 'gen']
     if gen_bad:
         i, cl = gen_bad[0]
@@ -137,7 +166,9 @@ def run(tier):
         c = cases[i]
         cl, _, ei = clause.partition('@')
         item = c['exp'][int(ei) - 1]['name'] if ei and int(ei) <= len(c['exp']) else 'entry'
-        key = '%s:%s:%s' % (c['tool'], cl, item.split(':')[0] if cl.startswith('warn') else item)
+        # key = tool : failing clause : section kind, or for an instruction group the brace variant of its comment
+        parts = item.split(':')
+        key = '%s:%s:%s' % (c['tool'], cl, parts[2] if parts[0] == 'group' else parts[0])
         d = c['doc']
         rep.violation(key, '%s on document seed=%d id=%d kind=%s W=%d: clause %s at item %s (%s)'
                       % (c['tool'], d['seed'], d['docid'], d['kind'], d['W'], cl, ei, item),
@@ -145,7 +176,17 @@ def run(tier):
                            inputs=wrapdrv.reproduce(d['seed'], d['docid'], d['W'], d['kind'], wd),
                            exp=c['exp'][int(ei) - 1] if ei and int(ei) <= len(c['exp']) else None, out=c['out']))
     counts = vacuity(cases, allfails)
-    rep.drift = drift
+    rep.drift = drift + len(bare_lf)
+    rep.extra['drift_wrap_points_or_row_packing'] = drift
+    rep.extra['drift_bare_lf_in_crlf_mode'] = dict(
+        cases=len(bare_lf), what='skool2asm with crlf=1 joins the lines of a wrapped register description with a bare LF '
+        '(skoolasm.py print_registers); not part of C18 as stated (lead triage) - counted, pieces judged as lines',
+        example=cases[bare_lf[0]]['key'] if bare_lf else None,
+        repro="skool: '@start' / '; T' / ';' / '; .' / ';' / '; HL first second third fourth fifth sixth seventh eighth ninth "
+              "tenth eleventh twelfth thirteenth fourteenth' / 'c40000 RET'; skool2asm -q -P crlf=1")
+    if drift or bare_lf:
+        print('NOTE property=C18 drift: %d cases differ from the greedy/row model, %d cases with bare LF in CRLF mode'
+              % (drift, len(bare_lf)))
     for c in cases:
         if c['tool'] != 'gen':
             for it in c['exp']:
